@@ -31,7 +31,7 @@ func main() {
 		fmt.Fprintln(os.Stderr, err)
 		os.Exit(2)
 	}
-	units, err := props.Units(*prop, props.TierOf(*tier), *seed, *mode)
+	units, err := props.Units(*prop, props.TierOf(*tier, *prop), *seed, *mode)
 	if err != nil {
 		fmt.Fprintln(os.Stderr, err)
 		os.Exit(2)
